@@ -172,6 +172,41 @@ def one_case(rec, tap, rng, cid):
                     rec.event("second fits of the same object judged")
                     fitlab.check_consistency(rec, idnt, desc2, init=init2,
                                              prefix="second-fit/")
+    if rng.random() < .3 and isinstance(desc["curve"], dict) and \
+            idnt.fit_properties.get("success") and wcp:
+        # two different curves of the same length fitted back to back with
+        # identical settings and the contact point held at the same value
+        # (e.g. 0 after the tip offset correction): each result has to be
+        # consistent with its own abscissa
+        pfix = copy.deepcopy(init)
+        pfix["contact_point"].set(
+            value=idnt.fit_properties["params_fitted"]["contact_point"].value,
+            vary=False, min=-np.inf, max=np.inf)
+        if not any(pfix[n].vary for n in pfix if pfix[n].expr is None):
+            for n in pfix:
+                if n in ("E", "E_L"):
+                    pfix[n].vary = True
+        spec2 = dict(desc["curve"])
+        spec2["law"] = [l for l in ("uniform", "jitter", "quadratic")
+                        if l != spec2["law"]][int(rng.integers(2))]
+        spec2["zmax"] = spec2["zmax"] * float(rng.uniform(.7, 1.4))
+        spec2["noise_seed"] = int(rng.integers(2 ** 31))
+        sib, _ = fitlab.build_curve(spec2)
+        kw2 = {a_: b_ for a_, b_ in kw.items() if a_ != "params_initial"}
+        kw2.pop("optimal_fit_edelta", None)
+        for cur, tag in ((idnt, "first"), (sib, "second")):
+            pin = copy.deepcopy(pfix)
+            try:
+                cur.fit_model(params_initial=pin, **copy.deepcopy(kw2))
+            except BaseException as e:  # noqa
+                rec.event("back-to-back fit raised %s" % type(e).__name__)
+                continue
+            dsc = dict(desc, back_to_back=tag, sibling=spec2)
+            rec.evaluated(dg=(spec2, desc["settings"], tag))
+            rec.event("back-to-back fits of sibling curves judged")
+            fitlab.check_consistency(rec, cur, dsc,
+                                     init=copy.deepcopy(pfix),
+                                     prefix="back-to-back/")
     rec.sample(desc, limit=3)
 
 
